@@ -29,5 +29,5 @@ def run(tier, replay=None):
       ('in_as_alternatives', V.in_as_alternatives),
       ('disjunction_as_rules', lambda prog, r: V.styled(prog, {'or_as_rules': True}, ['"or"'])),
   ]
-  K.run_core(rep, PID, tier, PROFILE, variants, 40, 1000, 'c11', replay=replay, ok=ok, info=info, metamorphic=True)
+  K.run_core(rep, PID, tier, PROFILE, variants, 40, 400, 'c11', replay=replay, ok=ok, info=info, metamorphic=True)
   return rep.finish()
